@@ -4,7 +4,7 @@ VARIANTS = ["san", "simd"]
 RULE = ("llenc: images (noise, flat, alternating 0/max, gradient, random extremes; width/height from 1) x precision 2..16 x "
         "PSV 1..7 x Pt x 1..4 components (RGB-style single table and YCbCr-style two tables) x restart rows; the Lean model must "
         "emit byte-identical DHT tables and entropy-coded data, the model's decoder llDecode run on those bytes must return the samples "
-        "the real decompressor returns, and the real decoder (libjpeg and TurboJPEG) must return (s >> Pt) << Pt; lltj: TurboJPEG API with every packed-pixel layout, row order and pitch; class = op + precision band + outcome")
+        "the real decompressor returns, and the real decoder (libjpeg and TurboJPEG) must return (s >> Pt) << Pt; llsusp: the same streams delivered to the decompressor in pieces; lltj: TurboJPEG API with every packed-pixel layout, row order and pitch; class = op + precision band + outcome")
 TRUSTED = ["Model.Lossless / Model.LosslessDec / Model.Bits / Model.Huff are hand models of jclossls.c, jdlossls.c, jcdiffct.c, jddiffct.c, jclhuff.c, jdlhuff.c"]
 ASSUMPTIONS = ["all sampling factors are 1 in lossless mode (forced by jcmaster.c); the byte-level model covers the single interleaved scan (default for <= 4 components); "
                "other scan layouts (one scan per component, partial interleaving) are exercised on the real code by llscan with the exact-reconstruction oracle"]
@@ -15,6 +15,8 @@ def classify(op, R):
     if p[0] == "llenc":
         P = int(p[1])
         return "llenc:P%s:psv%s:%s" % ("<=8" if P <= 8 else "<=12" if P <= 12 else "<=16", p[3], "ok" if R.startswith("dht") else R.split(" ")[0])
+    if p[0] == "llsusp":
+        return "llsusp:P%s:k%s" % ("<=8" if int(p[1]) <= 8 else "<=12" if int(p[1]) <= 12 else "<=16", p[11])
     if p[0] == "llscan":
         return "llscan:nc%s:l%s:%s" % (p[5], p[11], R.split(" ")[0])
     if p[0] == "lltj":
@@ -44,6 +46,12 @@ def gen_ops(rng, tier):
         h = rng.choice([1, 2, 3, 5, 8, 13])
         ops.append("llscan %d %d %d %d %d %d %d %d %d %s %d" % (P, Pt, rng.randint(1, 7), rng.choice([0, 0, 1, 2, h]), nc, rng.choice([1, 2, 3, 5, 8, 17, 40]), h,
                                                                 rng.choice([0, 0, 1, 2, 3, 4]), rng.randrange(1 << 20), "ycc" if nc == 3 and rng.random() < .3 else "rgb", rng.choice([1, 1, 2, 3])))
+    # the same streams handed to the decompressor in pieces (suspending source of the C09 executor): still exact
+    for i in range(300 if big else 60):
+        P = rng.choice([8, 12, 16, rng.randint(2, 16)]); Pt = rng.choice([0, 0, rng.randrange(P)])
+        nc = rng.choice([1, 3, 4])
+        ops.append("llsusp %d %d %d %d %d %d %d %d %d %s %d %d %d" % (P, Pt, rng.randint(1, 7), rng.choice([0, 0, 1, 2]), nc, rng.choice([2, 7, 17, 60]), rng.choice([1, 3, 9]),
+                                                                  rng.choice([0, 0, 2, 4]), rng.randrange(1 << 20), "rgb", rng.choice([1, 2, 2, 3]), rng.randrange(1 << 30), 0))
     # boundary: 16-bit differences of exactly +-32768, width 1, height 1, 1024-wide rows in thorough
     for psv in range(1, 8):
         ops.append("llenc 16 0 %d 0 1 6 4 2 1 rgb" % psv)
